@@ -355,12 +355,8 @@ class _Gen:
 
     def chains(self, var: int):
         cls = self.vars[var]
-        out = self.sch.scalar_chains(cls, self.maxhops)
-        if var != 0:
-            # the model (and the generator) only cover chains the translator resolves "by class" onto the selected row
-            sel = self.vars[0]
-            out = [(p, k) for p, k in out if self.sch.is_sub(sel, self.sch.declaring(cls, p[0]) or "?")]
-        return out
+        # every variable has its own FROM element (fix for F-C07-1): any chain of any variable is translatable
+        return self.sch.scalar_chains(cls, self.maxhops)
 
     def pick_chain(self, var: int):
         cs = self.chains(var)
@@ -390,11 +386,7 @@ class _Gen:
 
     def rel_chains(self, var: int):
         cls = self.vars[var]
-        out = self.sch.rel_chains(cls, max(1, self.maxhops))
-        if var != 0:
-            sel = self.vars[0]
-            out = [(p, t) for p, t in out if self.sch.is_sub(sel, self.sch.declaring(cls, p[0]) or "?")]
-        return out
+        return self.sch.rel_chains(cls, max(1, self.maxhops))
 
     def rel_atom(self, var: int) -> Optional[str]:
         """a comparison of relationship-VALUED paths (the chain ends on a relationship: its FK column in SQL, the
@@ -523,12 +515,9 @@ class _Gen:
             return None
         same = oth == sel
         related = sch.is_sub(oth, sel) or sch.is_sub(sel, oth)
-        if same and not allow_same_class:
-            return None
-        if related and not same:
-            return None  # joined-inheritance overlap between an ancestor and a descendant: outside the model
+        # (a join of the selected class with itself / its own hierarchy is fine: the other variable has its own alias)
         ra, rb = rng.choice(pairs)
-        self.tags.add("eq-join-same-class" if same else "eq-join")
+        self.tags.add("eq-join-same-class" if same else ("eq-join-related-class" if related else "eq-join"))
         if rng.random() < 0.5:
             return "(cmp eq %s %s)" % (_ch(0, (ra,)), _ch(1, (rb,)))
         return "(cmp eq %s %s)" % (_ch(1, (rb,)), _ch(0, (ra,)))
@@ -597,8 +586,8 @@ def _gen_one(rng, stream: str) -> Case:
         cands = [c for c in sch.order if c not in VOCAB[fam]["abstract"] or c == root]
         want_join = rng.random() < 0.5
         if want_join:
-            # classes with relationships that can be equated: keep the pair joinable (siblings, not ancestor/descendant)
-            joinable = [c for c in cands if sch.rels(c) and c != root and not sch.is_sub(c, root) and not sch.is_sub(root, c)
+            # classes with relationships that can be equated (the same class and its hierarchy included)
+            joinable = [c for c in cands if sch.rels(c)
                         and any(sch.is_sub(ta, tb) or sch.is_sub(tb, ta) for _, ta in sch.rels(root) for _, tb in sch.rels(c))]
             oth = rng.choice(joinable) if joinable else rng.choice([root] + cands)
         else:
@@ -636,7 +625,7 @@ def _gen_one(rng, stream: str) -> Case:
     kind = "entity"
     vars_ = [root]
     which = rng.choice(["not", "not", "exists", "forall", "pred", "barevar", "barelit", "nocond", "unknown-attr",
-                        "chain-over-scalar", "setof", "index", "call", "flatten", "same-class-join"])
+                        "chain-over-scalar", "setof", "index", "call", "flatten"])
     tags.add("unsupported-" + which)
     inner = g.tree(rng.choice([0, 1]), [0])
 
@@ -676,15 +665,8 @@ def _gen_one(rng, stream: str) -> Case:
     elif which in ("index", "call", "flatten"):
         path, _ = g.pick_chain(0)
         cond = wrap("(cmp %s (other %s %s) (lit %d))" % (rng.choice(OPS), which, _ch(0, path), _num(rng)))
-    else:  # same-class-join: equality join of the selected class with itself
-        vars_ = [root, root]
-        g2 = _Gen(rng, sch, db, vars_)
-        a = g2.eq_join_atom(allow_same_class=True)
-        g.maxhops = 0  # with earlier relationship joins SQLAlchemy answers arbitrarily instead of raising: not modelled
-        if a is None or not g.chains(0):
-            return _gen_one(rng, stream)
-        cond = wrap(a)
-        g.tags |= g2.tags
+    else:
+        raise AssertionError(which)
     return Case(_case_line(False, kind, vars_, cond, sch, db), tuple(sorted(tags | g.tags)), "random")
 
 
@@ -695,12 +677,11 @@ PARTNER_PATTERNS = [[2], [0, 2], [1], [1, 1], [3], [0], [2, 1], [0, 3, 1], [2, 0
 
 def _join_shapes(sch: Sch):
     """every (selected class, other class, rel of selected, rel of other, class of the shared target) the translator
-    turns into `select(sel).join(other, other.rel_id == sel.rel_id)`: concrete classes unrelated by inheritance"""
+    turns into `select(sel).join(alias_of_other, alias.rel_id == sel.rel_id)`: every pair of concrete classes, the same
+    class and classes of one inheritance hierarchy included (the other variable has its own alias)"""
     conc = [c for c in sch.order if c not in VOCAB[sch.family]["abstract"]]
     for sel in conc:
         for oth in conc:
-            if sel == oth or sch.is_sub(sel, oth) or sch.is_sub(oth, sel):
-                continue
             for ra, ta in sch.rels(sel):
                 for rb, tb in sch.rels(oth):
                     if sch.is_sub(ta, tb) or sch.is_sub(tb, ta):
